@@ -1,15 +1,15 @@
 SPECIFICATION SpecNoLook
 CONSTANTS
   Users = {"u1", "u2"}
-  Dirs = {"D3"}
-  Files = {"f3"}
+  Dirs = {"D1", "D2"}
+  Files = {"f2"}
   Variants = {"exact"}
-  Modes = {"friends", "users"}
-  UserSets = {{}, {"u1"}}
-  BlockSets = {{"up"}}
+  Modes = {"everyone", "friends"}
+  UserSets = {{}}
+  BlockSets = {}
   PhraseSets <- PS_None
-  InitShared = {{"D3"}}
-  FriendUsers = {"u1"}
+  InitShared = {{"D1"}}
+  FriendUsers = {}
   MaxCfg = 3
   MaxReq = 1
   MaxEnv = 1
@@ -19,7 +19,7 @@ CONSTANTS
   DirReplyLocks = TRUE
   ScanDirCycles = TRUE
   AlwaysAccumulate = FALSE
-  FlagsTakenAtStart = TRUE
+  FlagsTakenAtStart = FALSE
   RevertWithinTick = FALSE
 INVARIANT TypeOK
 INVARIANT HolderIsInnermost
